@@ -179,6 +179,28 @@ fn main() {
     let a: Vec<String> = std::env::args().collect();
     match a[1].as_str() {
         "window" => window(&a[2], a[3].parse().unwrap()),
+        // filter <neg 0|1> <Op> <xclass> <x> <litclass> <lit>: does `.where(expr)` accept the event iff a one-step sequence with the same
+        // filter (translated by the real expr_to_sase_predicate, matched by the real SaseEngine) matches it?
+        "filter" => {
+            use varpulis_runtime::engine::compiler::expr_to_sase_predicate;
+            use varpulis_runtime::sase::{SaseEngine, SasePattern};
+            let strv = |p: &str| -> String { p.to_string() };
+            let mk_lit = |c: &str, p: &str| -> Expr { if c == "Str" { Expr::Str(strv(p)) } else { lit(c, p).0 } };
+            let cmp = Expr::Binary { op: binop(&a[3]), left: Box::new(Expr::Ident("x".into())), right: Box::new(mk_lit(&a[6], &a[7])) };
+            let e = if a[2] == "1" { Expr::Unary { op: UnaryOp::Not, expr: Box::new(cmp) } } else { cmp };
+            let mut ev = Event::new("T");
+            if a[4] != "missing" { ev = ev.with_field("x", if a[4] == "Str" { Value::Str(a[5].as_str().into()) } else { lit(&a[4], &a[5]).1 }); }
+            let ctx = SequenceContext::new();
+            let stream = eval_filter_expr(&e, &ev, &ctx) == Some(Value::Bool(true));
+            let pred = expr_to_sase_predicate(&e);
+            // SEQ(T where <filter>, End): the End event completes a match iff the first step accepted the event
+            let mut eng = SaseEngine::new(SasePattern::Seq(vec![SasePattern::Event { event_type: "T".into(), predicate: pred.clone(), alias: Some("a".into()) },
+                                                            SasePattern::Event { event_type: "End".into(), predicate: None, alias: None }]));
+            let _ = eng.process(&ev);
+            let step = !eng.process(&Event::new("End")).is_empty();
+            if stream == step { println!("OK filter {:?} on {:?}: stream accepts={stream}, step accepts={step}", e, ev.data); }
+            else { println!("REPRODUCED filter {:?} on event {:?}: `.where` accepts={stream} but the sequence step (predicate {:?}) accepts={step}", e, ev.data, pred); std::process::exit(1); }
+        }
         // simd <nmax>: sum/min/max kernels against naive definitions for every length 0..=nmax on distinct-power-of-two inputs (a dropped,
         // duplicated or mis-indexed element changes the sum) and on sign/inf patterns; run it twice: as is (AVX2 target when the CPU has it)
         // and with RUST_STD_DETECT_UNSTABLE=avx2 (scalar target)
